@@ -609,6 +609,25 @@ pub fn rename_segments(objs: &[Value]) -> Vec<Value> {
     objs.iter().map(|o| apply(o, &names)).collect()
 }
 
+/// Rename the segments of every top-level dotted key by *position* (first segment a, second b, …),
+/// which keeps "is a prefix of" relations between keys such as "" and "." ({"a":…, "a.b":…}).
+/// None when two keys of one object would coincide.
+pub fn rename_positional(objs: &[Value]) -> Option<Vec<Value>> {
+    let mut out = Vec::new();
+    for o in objs {
+        let m = o.as_object()?;
+        let mut n = Map::new();
+        for (k, v) in m {
+            let nk: Vec<String> = k.split('.').enumerate().map(|(i, _)| ((b'a' + (i % 26) as u8) as char).to_string()).collect();
+            if n.insert(nk.join("."), v.clone()).is_some() {
+                return None;
+            }
+        }
+        out.push(Value::Object(n));
+    }
+    Some(out)
+}
+
 pub fn parse_obj(text: &str) -> Option<Value> {
     serde_json::from_str::<Value>(text).ok().filter(|v| v.is_object())
 }
